@@ -50,7 +50,9 @@ def gate(R, prog, crate, env):
     ok, off = guarded(c, Guard("same-contract", boolean=name_guard), prog, env.depth, found)
     R.ob("C18.R1", crate + ":name-gate", ok, "migration can succeed for a different stored contract name: %s" % (off,), fn=key, found=found)
     edges = pass_edges(c, Guard("same-contract", boolean=name_guard), prog, env.depth)
-    reach = c.with_removed(edges).settle().T.reach
+    from engine.analysis import fail_world as _fw18
+    # (evaluated as a world too: the name test may sit in a helper / closure whose result is `?`-propagated)
+    reach = _fw18(c.with_removed(edges), Guard("same-contract", boolean=name_guard)).settle().T.reach
     early = [o for o in storage_ops_deep(prog, c, env.depth) if o["kind"] == "w" and o["root_bb"] in reach] + [bi for bi, t, a in call_sites(c, lambda nm: nm.startswith("cw2::set_contract_version")) if bi in reach]
     R.ob("C18.R1", crate + ":no-write-before-name-gate", not early, "storage is written before / without the contract-name check", fn=key)
     from engine.analysis import forms
